@@ -448,7 +448,7 @@ def ovec_streams(kind, orc, project=None):
 
 
 PROPS.update({
-    "C05": dict(streams=ovec_streams("c05", {"stepwise", "count", "app", "replica"}), trusted=OVEC_TRUST,
+    "C05": dict(streams=ovec_streams("c05", {"stepwise", "count", "app", "replica", "endalive"}), trusted=OVEC_TRUST,
                 assumptions=["lag bounded by the capacity for the stepwise statement (the lagging case is C06)"],
                 level_text="Coq theorems over all histories (any interleaving of mutators, entry traversals, transactions, subscriptions of both flavours, polls, drops): every published diff is strictly applicable and takes the contents before the call to the contents after it; a direct call publishes exactly one diff, the documented no-ops none; a subscriber that never lagged has, at every Pending, received exactly the concatenation of everything published since it subscribed whatever the polling pattern and flavour, and its replica is the contents. Tied to vector.rs/subscriber.rs by exhaustive short histories and random long ones; the harness checks independently (with a plain Vec as shadow) that the replica passes through every state in order and that the number of delivered diffs is the number specified.",
                 level_note="Trusted: Coq kernel, extraction, harness, imbl::Vector as list, tokio broadcast as a position log."),
